@@ -65,6 +65,7 @@ def bind_world(world):
 def make_dongle(world, platform="ledger", debug=False):
     """debug: the managers' -D/--iodebug option (the flag every dongle class takes)"""
     bind_world(world)
+    world.platform = platform
     if platform == "ledger":
         Platform.set(Platform.LEDGER)
         return H.HSM2Dongle(debug)
